@@ -157,11 +157,31 @@ type genIn struct {
 	Checklist []uint8 `json:"checklist"`
 }
 
+// pgIn is one window of the production generator (tbtcpg.NewProposalGenerator): the deposit and
+// the redemption side of the chain state (Dep.Max = GetDepositSweepMaxSize, Red.Limit =
+// GetRedemptionMaxSize, one wallet) and the checklist.
+type pgIn struct {
+	Dep       *depIn  `json:"dep"`
+	Red       *redIn  `json:"red"`
+	HbInvalid bool    `json:"hbInvalid"` // ValidateHeartbeatProposal fails
+	Checklist []uint8 `json:"checklist"`
+}
+
+// histIn is a window history: the windows are run one after the other on ONE long-lived object
+// graph (one fake chain pair whose state is replaced between windows, one DepositSweepTask, one
+// RedemptionTask, one production ProposalGenerator, one generator over fake tasks).
+type histIn struct {
+	Kind    string  `json:"kind"`
+	Windows []input `json:"windows"`
+}
+
 type input struct {
-	Fn  string `json:"fn"` // deposits | redemptions | generate
-	Dep *depIn `json:"dep,omitempty"`
-	Red *redIn `json:"red,omitempty"`
-	Gen *genIn `json:"gen,omitempty"`
+	Fn   string  `json:"fn"` // deposits | redemptions | generate | pg | history
+	Dep  *depIn  `json:"dep,omitempty"`
+	Red  *redIn  `json:"red,omitempty"`
+	Gen  *genIn  `json:"gen,omitempty"`
+	PG   *pgIn   `json:"pg,omitempty"`
+	Hist *histIn `json:"hist,omitempty"`
 }
 
 // ---------------------------------------------------------------- fake chains
@@ -171,6 +191,14 @@ type fakeChain struct {
 	t0           int64
 	dep          *depIn
 	red          *redIn
+	hbInvalid    bool
+}
+
+func (f *fakeChain) ValidateHeartbeatProposal([20]byte, *tbtc.HeartbeatProposal) error {
+	if f.hbInvalid {
+		return errFake
+	}
+	return nil
 }
 
 func (f *fakeChain) GetDepositMinAge() (uint32, error) {
@@ -346,7 +374,7 @@ func (f *fakeChain) GetRedemptionDelay(w [20]byte, sc bitcoin.Script) (time.Dura
 
 type fakeBtc struct {
 	bitcoin.Chain
-	dep *depIn
+	fc *fakeChain // the confirmations are part of the window's deposit state
 }
 
 func (f *fakeBtc) EstimateSatPerVByteFee(uint32) (int64, error) { return 1, nil }
@@ -356,7 +384,7 @@ func (f *fakeBtc) GetTransaction(h bitcoin.Hash) (*bitcoin.Transaction, error) {
 }
 
 func (f *fakeBtc) GetTransactionConfirmations(h bitcoin.Hash) (uint, error) {
-	for _, c := range f.dep.Confs {
+	for _, c := range f.fc.dep.Confs {
 		if txHash(c.Tx) == h {
 			if c.Err {
 				return 0, errFake
@@ -391,78 +419,77 @@ func timed(f func(t0 int64)) {
 	}
 }
 
-func runDeposits(in *depIn, em *lib.Emitter, id string) {
-	var t0 int64
-	kind, obs := "DepPanic", interface{}(nil)
-	var deps []string
-	timed(func(now int64) {
-		t0 = now
-		fc := &fakeChain{t0: now, dep: in}
-		fb := &fakeBtc{dep: in}
-		kind, obs, deps = "DepPanic", nil, nil
-		defer func() {
-			if r := recover(); r != nil {
-				kind, obs = "DepPanic", fmt.Sprintf("panic: %v", r)
-			}
-		}()
-		var err error
-		var human []map[string]interface{}
-		if in.ToSweep {
-			var refs []*tbtcpg.DepositReference
-			if in.ViaRun {
-				var p tbtc.CoordinationProposal
-				var ok bool
-				p, ok, err = tbtcpg.NewDepositSweepTask(fc, fb).Run(&tbtc.CoordinationProposalRequest{
-					WalletPublicKeyHash: walletPKH(in.Wallet), ActionsChecklist: []tbtc.WalletActionType{tbtc.ActionDepositSweep}})
-				if err == nil && ok {
-					dsp := p.(*tbtc.DepositSweepProposal)
-					for i, k := range dsp.DepositsKeys {
-						refs = append(refs, &tbtcpg.DepositReference{FundingTxHash: k.FundingTxHash,
-							FundingOutputIndex: k.FundingOutputIndex, RevealBlock: dsp.DepositsRevealBlocks[i].Uint64()})
-					}
-				}
-			} else {
-				refs, err = tbtcpg.NewDepositSweepTask(fc, fb).FindDepositsToSweep(nullLogger, walletPKH(in.Wallet), uint16(in.Max))
-			}
-			for _, d := range refs {
-				deps = append(deps, fmt.Sprintf("{| d_tx := %s; d_idx := %s; d_block := %s; d_wallet := 0; d_swept := false; d_amount := 0%%Z; d_conf := 0%%Z |}",
-					lib.N(txID(d.FundingTxHash)), lib.N(uint64(d.FundingOutputIndex)), lib.ZU(d.RevealBlock)))
-				human = append(human, map[string]interface{}{"tx": txID(d.FundingTxHash), "idx": d.FundingOutputIndex, "block": d.RevealBlock})
-			}
-		} else {
-			var ds []*tbtcpg.Deposit
-			ds, err = tbtcpg.FindDeposits(fc, fb, walletPKH(in.Wallet), in.Max, in.SkipSwept, in.SkipUnconf)
-			for _, d := range ds {
-				amount := int64(math.Round(d.AmountBtc * 1e8))
-				deps = append(deps, fmt.Sprintf("{| d_tx := %s; d_idx := %s; d_block := %s; d_wallet := %s; d_swept := %s; d_amount := %s; d_conf := %s |}",
-					lib.N(txID(d.FundingTxHash)), lib.N(uint64(d.FundingOutputIndex)), lib.ZU(d.RevealBlock),
-					lib.N(walletID(d.WalletPublicKeyHash)), lib.Bool(d.IsSwept), lib.Z(amount), lib.ZU(uint64(d.Confirmations))))
-				human = append(human, map[string]interface{}{"tx": txID(d.FundingTxHash), "idx": d.FundingOutputIndex,
-					"block": d.RevealBlock, "wallet": walletID(d.WalletPublicKeyHash), "swept": d.IsSwept, "amount": amount, "conf": d.Confirmations})
-			}
-		}
-		if err == nil {
-			kind, obs = "DepOk", human
-			return
-		}
-		m := err.Error()
-		obs = m
-		switch {
-		case strings.Contains(m, "wallet public key hash is required"):
-			kind = "DepErrWallet"
-		case strings.Contains(m, "no deposit request for key"):
-			kind = "DepErrNoRequest"
-		case strings.Contains(m, "failed to get deposit minimum age"), strings.Contains(m, "failed to get past deposit revealed events"),
-			strings.Contains(m, "failed to get deposit request"):
-			kind = "DepErrChain"
-		default:
-			kind = "DepPanic"
-		}
-	})
-	out := kind
-	if kind == "DepOk" {
-		out = "(DepOk " + lib.List(deps) + ")"
+// node is the long-lived object graph of one keep node (cmd/start.go builds the proposal
+// generator, and with it every task, exactly once): one pair of chain handles, one
+// DepositSweepTask, one RedemptionTask, one production ProposalGenerator, one generator over
+// fake tasks.  A single case uses a fresh node; a history uses ONE node for all its windows and
+// only replaces the fake chains' state (fc.dep / fc.red / fc.t0) between the windows.
+type node struct {
+	fc        *fakeChain
+	fb        *fakeBtc
+	sweep     *tbtcpg.DepositSweepTask
+	red       *tbtcpg.RedemptionTask
+	prod      *tbtcpg.ProposalGenerator
+	fakeTasks []*fakeTask
+	fakeGen   *tbtcpg.ProposalGenerator
+	trace     []uint64
+	// anchor != 0 (histories): the instant all ages of all windows are relative to, so that a
+	// deposit's RevealedAt / a request's RequestedAt is the same at every window (on the real
+	// chain they are written once); 0: ages are relative to the instant of the call
+	anchor int64
+}
+
+func (nd *node) base(now int64) int64 {
+	if nd.anchor != 0 {
+		return nd.anchor
 	}
+	return now
+}
+
+func newNode() *node {
+	fc := &fakeChain{}
+	fb := &fakeBtc{fc: fc}
+	return &node{fc: fc, fb: fb,
+		sweep: tbtcpg.NewDepositSweepTask(fc, fb),
+		red:   tbtcpg.NewRedemptionTask(fc, fb),
+		prod:  tbtcpg.NewProposalGenerator(fc, fb)}
+}
+
+// winRes is what one window (= one case) produced.
+type winRes struct {
+	coq        string // the Coq term of type Model.C33.case
+	fn, kind   string
+	out        interface{}
+	summary    string // kind + selection, to tell windows with different outputs apart
+	nontrivial bool
+	sig        map[string]interface{}
+	tallies    []string
+	drift      int64    // seconds between the anchor of the ages and the instant of the call
+	selDeps    [][2]int // deposits selected (tx, idx)
+	selScripts []int    // redemption scripts selected
+}
+
+func depErrKind(m string) string {
+	switch {
+	case strings.Contains(m, "wallet public key hash is required"):
+		return "DepErrWallet"
+	case strings.Contains(m, "no deposit request for key"):
+		return "DepErrNoRequest"
+	case strings.Contains(m, "failed to get deposit minimum age"), strings.Contains(m, "failed to get past deposit revealed events"),
+		strings.Contains(m, "failed to get deposit request"):
+		return "DepErrChain"
+	}
+	return "DepPanic"
+}
+
+func refTerm(tx uint64, idx uint32, block uint64) string {
+	return fmt.Sprintf("{| d_tx := %s; d_idx := %s; d_block := %s; d_wallet := 0; d_swept := false; d_amount := 0%%Z; d_conf := 0%%Z |}",
+		lib.N(tx), lib.N(uint64(idx)), lib.ZU(block))
+}
+
+// depRecord prints the dep_case record for the state [in] seen at the instant [now]; the ages
+// of [in] are relative to t0
+func depRecord(in *depIn, now, t0 int64, out string) string {
 	var evs, reqs, confs []string
 	for _, e := range in.Events {
 		evs = append(evs, fmt.Sprintf("{| de_tx := %s; de_idx := %s; de_block := %s; de_wallet := %s |}",
@@ -490,10 +517,76 @@ func runDeposits(in *depIn, em *lib.Emitter, id string) {
 	if !in.EventsErr {
 		events = lib.Some(lib.List(evs))
 	}
-	coq := fmt.Sprintf("(CDep {| dc_now := %s; dc_min_age := %s; dc_events := %s; dc_reqs := %s; dc_confs := %s; "+
-		"dc_wallet := %s; dc_max := %s; dc_skip_swept := %s; dc_skip_unconf := %s; dc_to_sweep := %s; dc_out := %s |})",
-		lib.Z(t0), minAge, events, lib.List(reqs), lib.List(confs), lib.N(uint64(in.Wallet)), lib.Z(int64(in.Max)),
+	return fmt.Sprintf("{| dc_now := %s; dc_min_age := %s; dc_events := %s; dc_reqs := %s; dc_confs := %s; "+
+		"dc_wallet := %s; dc_max := %s; dc_skip_swept := %s; dc_skip_unconf := %s; dc_to_sweep := %s; dc_out := %s |}",
+		lib.Z(now), minAge, events, lib.List(reqs), lib.List(confs), lib.N(uint64(in.Wallet)), lib.Z(int64(in.Max)),
 		lib.Bool(in.SkipSwept), lib.Bool(in.SkipUnconf), lib.Bool(in.ToSweep), out)
+}
+
+func doDeposits(nd *node, in *depIn) winRes {
+	var t0, tnow int64
+	kind, obs := "DepPanic", interface{}(nil)
+	var deps []string
+	var sel [][2]int
+	timed(func(now int64) {
+		t0, tnow = nd.base(now), now
+		nd.fc.t0, nd.fc.dep = t0, in
+		kind, obs, deps, sel = "DepPanic", nil, nil, nil
+		defer func() {
+			if r := recover(); r != nil {
+				kind, obs = "DepPanic", fmt.Sprintf("panic: %v", r)
+			}
+		}()
+		var err error
+		var human []map[string]interface{}
+		if in.ToSweep {
+			var refs []*tbtcpg.DepositReference
+			if in.ViaRun {
+				var p tbtc.CoordinationProposal
+				var ok bool
+				p, ok, err = nd.sweep.Run(&tbtc.CoordinationProposalRequest{
+					WalletPublicKeyHash: walletPKH(in.Wallet), ActionsChecklist: []tbtc.WalletActionType{tbtc.ActionDepositSweep}})
+				if err == nil && ok {
+					dsp := p.(*tbtc.DepositSweepProposal)
+					for i, k := range dsp.DepositsKeys {
+						refs = append(refs, &tbtcpg.DepositReference{FundingTxHash: k.FundingTxHash,
+							FundingOutputIndex: k.FundingOutputIndex, RevealBlock: dsp.DepositsRevealBlocks[i].Uint64()})
+					}
+				}
+			} else {
+				refs, err = nd.sweep.FindDepositsToSweep(nullLogger, walletPKH(in.Wallet), uint16(in.Max))
+			}
+			for _, d := range refs {
+				deps = append(deps, refTerm(txID(d.FundingTxHash), d.FundingOutputIndex, d.RevealBlock))
+				human = append(human, map[string]interface{}{"tx": txID(d.FundingTxHash), "idx": d.FundingOutputIndex, "block": d.RevealBlock})
+				sel = append(sel, [2]int{int(txID(d.FundingTxHash)), int(d.FundingOutputIndex)})
+			}
+		} else {
+			var ds []*tbtcpg.Deposit
+			ds, err = tbtcpg.FindDeposits(nd.fc, nd.fb, walletPKH(in.Wallet), in.Max, in.SkipSwept, in.SkipUnconf)
+			for _, d := range ds {
+				amount := int64(math.Round(d.AmountBtc * 1e8))
+				deps = append(deps, fmt.Sprintf("{| d_tx := %s; d_idx := %s; d_block := %s; d_wallet := %s; d_swept := %s; d_amount := %s; d_conf := %s |}",
+					lib.N(txID(d.FundingTxHash)), lib.N(uint64(d.FundingOutputIndex)), lib.ZU(d.RevealBlock),
+					lib.N(walletID(d.WalletPublicKeyHash)), lib.Bool(d.IsSwept), lib.Z(amount), lib.ZU(uint64(d.Confirmations))))
+				human = append(human, map[string]interface{}{"tx": txID(d.FundingTxHash), "idx": d.FundingOutputIndex,
+					"block": d.RevealBlock, "wallet": walletID(d.WalletPublicKeyHash), "swept": d.IsSwept, "amount": amount, "conf": d.Confirmations})
+				if !d.IsSwept {
+					sel = append(sel, [2]int{int(txID(d.FundingTxHash)), int(d.FundingOutputIndex)})
+				}
+			}
+		}
+		if err == nil {
+			kind, obs = "DepOk", human
+			return
+		}
+		obs = err.Error()
+		kind = depErrKind(err.Error())
+	})
+	out := kind
+	if kind == "DepOk" {
+		out = "(DepOk " + lib.List(deps) + ")"
+	}
 	// structural features
 	blocks := map[uint64]int{}
 	ooo := false
@@ -516,70 +609,35 @@ func runDeposits(in *depIn, em *lib.Emitter, id string) {
 	if in.ViaRun {
 		fn = "sweepRun"
 	}
-	em.Tally(fn + "-" + kind)
+	res := winRes{coq: "(CDep " + depRecord(in, tnow, t0, out) + ")", fn: fn, kind: kind, out: obs, selDeps: sel, drift: tnow - t0,
+		summary:    fmt.Sprintf("%s%v", kind, sel),
+		nontrivial: len(in.Events) >= 3 && (ties || ooo) && kind == "DepOk" && len(deps) >= 1 && len(deps) < len(in.Events),
+		sig:        map[string]interface{}{"fn": fn, "out": kind, "ties": ties, "outOfOrder": ooo}}
+	res.tallies = append(res.tallies, fn+"-"+kind)
 	if kind == "DepOk" {
-		em.Tally(fmt.Sprintf("%s-found-%02d", fn, len(deps)))
+		res.tallies = append(res.tallies, fmt.Sprintf("%s-found-%02d", fn, len(deps)))
 		if in.Max > 0 && len(deps) == in.Max {
-			em.Tally(fn + "-capped")
+			res.tallies = append(res.tallies, fn+"-capped")
 		}
 	}
-	key, _ := json.Marshal(in)
-	em.Case(lib.Case{ID: id, Coq: coq, Key: fn + string(key),
-		Nontrivial: len(in.Events) >= 3 && (ties || ooo) && kind == "DepOk" && len(deps) >= 1 && len(deps) < len(in.Events),
-		Sig:        map[string]interface{}{"fn": fn, "out": kind, "ties": ties, "outOfOrder": ooo},
-		In:         input{Fn: "deposits", Dep: in}, Out: obs})
+	return res
 }
 
-func runRedemptions(in *redIn, em *lib.Emitter, id string) {
-	var t0 int64
-	kind, obs := "RedPanic", interface{}(nil)
-	var scripts []uint64
-	timed(func(now int64) {
-		t0 = now
-		fc := &fakeChain{t0: now, red: in}
-		kind, obs, scripts = "RedPanic", nil, nil
-		defer func() {
-			if r := recover(); r != nil {
-				kind, obs = "RedPanic", fmt.Sprintf("panic: %v", r)
-			}
-		}()
-		var res []bitcoin.Script
-		var err error
-		if in.ViaRun {
-			var p tbtc.CoordinationProposal
-			var ok bool
-			p, ok, err = tbtcpg.NewRedemptionTask(fc, &fakeBtc{}).Run(&tbtc.CoordinationProposalRequest{
-				WalletPublicKeyHash: walletPKH(in.Wallet), ActionsChecklist: []tbtc.WalletActionType{tbtc.ActionRedemption}})
-			if err == nil && ok {
-				res = p.(*tbtc.RedemptionProposal).RedeemersOutputScripts
-			}
-		} else {
-			res, err = tbtcpg.NewRedemptionTask(fc, nil).FindPendingRedemptions(nullLogger, walletPKH(in.Wallet), in.Limit)
-		}
-		if err == nil {
-			for _, s := range res {
-				scripts = append(scripts, scriptID(s))
-			}
-			kind, obs = "RedOk", scripts
-			return
-		}
-		m := err.Error()
-		obs = m
-		switch {
-		case strings.Contains(m, "wallet public key hash is required"):
-			kind = "RedErrWallet"
-		case strings.Contains(m, "failed to get block counter"), strings.Contains(m, "failed to get current block number"),
-			strings.Contains(m, "failed to get redemption request minimum age"), strings.Contains(m, "failed to get redemption parameters"),
-			strings.Contains(m, "cannot get pending redemptions"):
-			kind = "RedErrChain"
-		default:
-			kind = "RedPanic"
-		}
-	})
-	out := kind
-	if kind == "RedOk" {
-		out = "(RedOk " + lib.ListN(scripts) + ")"
+func redErrKind(m string) string {
+	switch {
+	case strings.Contains(m, "wallet public key hash is required"):
+		return "RedErrWallet"
+	case strings.Contains(m, "failed to get block counter"), strings.Contains(m, "failed to get current block number"),
+		strings.Contains(m, "failed to get redemption request minimum age"), strings.Contains(m, "failed to get redemption parameters"),
+		strings.Contains(m, "cannot get pending redemptions"):
+		return "RedErrChain"
 	}
+	return "RedPanic"
+}
+
+// redRecord prints the red_case record for the state [in] seen at the instant [now]; the ages
+// of [in] are relative to t0
+func redRecord(in *redIn, now, t0 int64, out string) string {
 	keyErr := func(w, s int) bool {
 		for _, p := range in.KeyErrs {
 			if p[0] == w && p[1] == s {
@@ -589,13 +647,11 @@ func runRedemptions(in *redIn, em *lib.Emitter, id string) {
 		return false
 	}
 	var evs, pend, delays []string
-	keys := map[[2]int]int{}
 	for _, e := range in.Events {
 		k := "None"
 		if !keyErr(e.Wallet, e.Script) {
 			k = lib.Some(lib.N(uint64(e.Wallet)*100000 + uint64(e.Script)))
 		}
-		keys[[2]int{e.Wallet, e.Script}]++
 		evs = append(evs, fmt.Sprintf("{| re_block := %s; re_wallet := %s; re_script := %s; re_key := %s |}",
 			lib.ZU(e.Block), lib.N(uint64(e.Wallet)), lib.N(uint64(e.Script)), k))
 	}
@@ -629,10 +685,56 @@ func runRedemptions(in *redIn, em *lib.Emitter, id string) {
 	if !in.EventsErr {
 		events = lib.Some(lib.List(evs))
 	}
-	coq := fmt.Sprintf("(CRed {| rc_now := %s; rc_current := %s; rc_min_age := %s; rc_timeout := %s; rc_abt := %s; "+
-		"rc_events := %s; rc_pending := %s; rc_delay := %s; rc_wallet := %s; rc_limit := %s; rc_out := %s |})",
-		lib.Z(t0), optU(in.Current != nil, cur), optU(in.MinAge != nil, ma), optU(in.Timeout != nil, tmo), lib.Z(int64(in.ABT)),
+	return fmt.Sprintf("{| rc_now := %s; rc_current := %s; rc_min_age := %s; rc_timeout := %s; rc_abt := %s; "+
+		"rc_events := %s; rc_pending := %s; rc_delay := %s; rc_wallet := %s; rc_limit := %s; rc_out := %s |}",
+		lib.Z(now), optU(in.Current != nil, cur), optU(in.MinAge != nil, ma), optU(in.Timeout != nil, tmo), lib.Z(int64(in.ABT)),
 		events, lib.List(pend), lib.List(delays), lib.N(uint64(in.Wallet)), lib.Z(int64(in.Limit)), out)
+}
+
+func doRedemptions(nd *node, in *redIn) winRes {
+	var t0, tnow int64
+	kind, obs := "RedPanic", interface{}(nil)
+	var scripts []uint64
+	timed(func(now int64) {
+		t0, tnow = nd.base(now), now
+		nd.fc.t0, nd.fc.red = t0, in
+		kind, obs, scripts = "RedPanic", nil, nil
+		defer func() {
+			if r := recover(); r != nil {
+				kind, obs = "RedPanic", fmt.Sprintf("panic: %v", r)
+			}
+		}()
+		var res []bitcoin.Script
+		var err error
+		if in.ViaRun {
+			var p tbtc.CoordinationProposal
+			var ok bool
+			p, ok, err = nd.red.Run(&tbtc.CoordinationProposalRequest{
+				WalletPublicKeyHash: walletPKH(in.Wallet), ActionsChecklist: []tbtc.WalletActionType{tbtc.ActionRedemption}})
+			if err == nil && ok {
+				res = p.(*tbtc.RedemptionProposal).RedeemersOutputScripts
+			}
+		} else {
+			res, err = nd.red.FindPendingRedemptions(nullLogger, walletPKH(in.Wallet), in.Limit)
+		}
+		if err == nil {
+			for _, s := range res {
+				scripts = append(scripts, scriptID(s))
+			}
+			kind, obs = "RedOk", scripts
+			return
+		}
+		obs = err.Error()
+		kind = redErrKind(err.Error())
+	})
+	out := kind
+	if kind == "RedOk" {
+		out = "(RedOk " + lib.ListN(scripts) + ")"
+	}
+	keys := map[[2]int]int{}
+	for _, e := range in.Events {
+		keys[[2]int{e.Wallet, e.Script}]++
+	}
 	dup := false
 	for _, n := range keys {
 		dup = dup || n >= 2
@@ -643,21 +745,24 @@ func runRedemptions(in *redIn, em *lib.Emitter, id string) {
 		ages[p.Age]++
 		tie = tie || ages[p.Age] >= 2
 	}
-	if in.ViaRun {
-		em.Tally("redemptionRun-" + kind)
+	res := winRes{coq: "(CRed " + redRecord(in, tnow, t0, out) + ")", fn: "redemptions", kind: kind, out: obs, drift: tnow - t0,
+		summary:    fmt.Sprintf("%s%v", kind, scripts),
+		nontrivial: dup && kind == "RedOk" && len(scripts) >= 2,
+		sig:        map[string]interface{}{"fn": "redemptions", "viaRun": in.ViaRun, "out": kind, "dupKeys": dup, "ageTies": tie}}
+	for _, s := range scripts {
+		res.selScripts = append(res.selScripts, int(s))
 	}
-	em.Tally("redemptions-" + kind)
+	if in.ViaRun {
+		res.tallies = append(res.tallies, "redemptionRun-"+kind)
+	}
+	res.tallies = append(res.tallies, "redemptions-"+kind)
 	if kind == "RedOk" {
-		em.Tally(fmt.Sprintf("redemptions-found-%02d", len(scripts)))
+		res.tallies = append(res.tallies, fmt.Sprintf("redemptions-found-%02d", len(scripts)))
 		if in.Limit > 0 && len(scripts) == int(in.Limit) {
-			em.Tally("redemptions-capped")
+			res.tallies = append(res.tallies, "redemptions-capped")
 		}
 	}
-	key, _ := json.Marshal(in)
-	em.Case(lib.Case{ID: id, Coq: coq, Key: "red" + string(key),
-		Nontrivial: dup && kind == "RedOk" && len(scripts) >= 2,
-		Sig:        map[string]interface{}{"fn": "redemptions", "viaRun": in.ViaRun, "out": kind, "dupKeys": dup, "ageTies": tie},
-		In:         input{Fn: "redemptions", Red: in}, Out: obs})
+	return res
 }
 
 // ---- generator
@@ -686,12 +791,23 @@ func (t *fakeTask) Run(*tbtc.CoordinationProposalRequest) (tbtc.CoordinationProp
 }
 func (t *fakeTask) ActionType() tbtc.WalletActionType { return tbtc.WalletActionType(t.spec.Action) }
 
-func runGenerate(in *genIn, em *lib.Emitter, id string) {
-	var trace []uint64
-	tasks := make([]tbtcpg.ProposalTask, len(in.Tasks))
+// doGenerate runs Generate on the node's generator over fake tasks.  The generator and its task
+// objects are built at the first call; later windows only change what the tasks answer (a
+// window with another number of tasks gets a new generator).
+func doGenerate(nd *node, in *genIn) winRes {
+	if nd.fakeGen == nil || len(nd.fakeTasks) != len(in.Tasks) {
+		nd.fakeTasks = make([]*fakeTask, len(in.Tasks))
+		tasks := make([]tbtcpg.ProposalTask, len(in.Tasks))
+		for i := range in.Tasks {
+			nd.fakeTasks[i] = &fakeTask{idx: i, prop: &fakeProposal{id: uint64(i + 1)}, trace: &nd.trace}
+			tasks[i] = nd.fakeTasks[i]
+		}
+		nd.fakeGen = tbtcpg.VerifNewProposalGenerator(tasks)
+	}
+	nd.trace = nil
 	var taskTerms []string
 	for i, s := range in.Tasks {
-		tasks[i] = &fakeTask{idx: i, spec: s, prop: &fakeProposal{id: uint64(i + 1)}, trace: &trace}
+		nd.fakeTasks[i].spec = s
 		o := "TNone"
 		switch s.Out {
 		case "prop":
@@ -715,7 +831,7 @@ func runGenerate(in *genIn, em *lib.Emitter, id string) {
 				kind, out, obs = "Panic", "(GProp 999999)", fmt.Sprintf("panic: %v", r)
 			}
 		}()
-		p, err := tbtcpg.VerifNewProposalGenerator(tasks).Generate(&tbtc.CoordinationProposalRequest{
+		p, err := nd.fakeGen.Generate(&tbtc.CoordinationProposalRequest{
 			WalletPublicKeyHash: walletPKH(1), ActionsChecklist: checklist})
 		switch {
 		case err != nil:
@@ -732,25 +848,173 @@ func runGenerate(in *genIn, em *lib.Emitter, id string) {
 			}
 		}
 	}()
+	trace := append([]uint64{}, nd.trace...)
 	coq := fmt.Sprintf("(CGen {| gc_tasks := %s; gc_checklist := %s; gc_out := %s; gc_trace := %s |})",
 		lib.List(taskTerms), lib.ListN(cl), out, lib.ListN(trace))
-	em.Tally("generate-" + kind)
-	key, _ := json.Marshal(in)
-	em.Case(lib.Case{ID: id, Coq: coq, Key: "gen" + string(key),
-		Nontrivial: len(in.Checklist) >= 2 && len(trace) >= 2,
-		Sig:        map[string]interface{}{"fn": "generate", "out": kind},
-		In:         input{Fn: "generate", Gen: in}, Out: map[string]interface{}{"result": obs, "ran": trace}})
+	return winRes{coq: coq, fn: "generate", kind: kind, summary: out + fmt.Sprint(trace),
+		out:        map[string]interface{}{"result": obs, "ran": trace},
+		nontrivial: len(in.Checklist) >= 2 && len(trace) >= 2,
+		sig:        map[string]interface{}{"fn": "generate", "out": kind},
+		tallies:    []string{"generate-" + kind}}
+}
+
+// doPG runs Generate on the node's PRODUCTION generator (tbtcpg.NewProposalGenerator: the real
+// DepositSweepTask, RedemptionTask, HeartbeatTask ...) against the window's chain state.
+func doPG(nd *node, in *pgIn) winRes {
+	var t0, tnow int64
+	kind, out, obs := "PPanic", "PPanic", interface{}(nil)
+	var res winRes
+	checklist := make([]tbtc.WalletActionType, len(in.Checklist))
+	cl := make([]uint64, len(in.Checklist))
+	for i, a := range in.Checklist {
+		checklist[i] = tbtc.WalletActionType(a)
+		cl[i] = uint64(a)
+	}
+	timed(func(now int64) {
+		t0, tnow = nd.base(now), now
+		nd.fc.t0, nd.fc.dep, nd.fc.red, nd.fc.hbInvalid = t0, in.Dep, in.Red, in.HbInvalid
+		kind, out, obs = "PPanic", "PPanic", nil
+		res.selDeps, res.selScripts = nil, nil
+		defer func() {
+			if r := recover(); r != nil {
+				kind, out, obs = "PPanic", "PPanic", fmt.Sprintf("panic: %v", r)
+			}
+		}()
+		p, err := nd.prod.Generate(&tbtc.CoordinationProposalRequest{
+			WalletPublicKeyHash: walletPKH(in.Dep.Wallet), ActionsChecklist: checklist})
+		if err != nil {
+			kind, out, obs = "PErr", "PErr", err.Error()
+			return
+		}
+		switch q := p.(type) {
+		case *tbtc.DepositSweepProposal:
+			var deps []string
+			var human []map[string]interface{}
+			for i, k := range q.DepositsKeys {
+				b := q.DepositsRevealBlocks[i].Uint64()
+				deps = append(deps, refTerm(txID(k.FundingTxHash), k.FundingOutputIndex, b))
+				human = append(human, map[string]interface{}{"tx": txID(k.FundingTxHash), "idx": k.FundingOutputIndex, "block": b})
+				res.selDeps = append(res.selDeps, [2]int{int(txID(k.FundingTxHash)), int(k.FundingOutputIndex)})
+			}
+			kind, out, obs = "PSweep", "(PSweep "+lib.List(deps)+")", human
+		case *tbtc.RedemptionProposal:
+			var scripts []uint64
+			for _, s := range q.RedeemersOutputScripts {
+				scripts = append(scripts, scriptID(s))
+				res.selScripts = append(res.selScripts, int(scriptID(s)))
+			}
+			kind, out, obs = "PRedeem", "(PRedeem "+lib.ListN(scripts)+")", scripts
+		case *tbtc.HeartbeatProposal:
+			kind, out, obs = "PHeartbeat", "PHeartbeat", "heartbeat"
+		case *tbtc.NoopProposal:
+			kind, out, obs = "PNoop", "PNoop", "noop"
+		default:
+			kind, out, obs = "PPanic", "PPanic", fmt.Sprintf("unexpected proposal %T", p)
+		}
+	})
+	res.coq = fmt.Sprintf("(CPG {| pg_dep := %s; pg_red := %s; pg_hb_valid := %s; pg_checklist := %s; pg_out := %s |})",
+		depRecord(in.Dep, tnow, t0, "DepPanic"), redRecord(in.Red, tnow, t0, "RedPanic"), lib.Bool(!in.HbInvalid), lib.ListN(cl), out)
+	res.fn, res.kind, res.out, res.drift = "pg", kind, obs, tnow-t0
+	res.summary = fmt.Sprintf("%s%v%v", kind, res.selDeps, res.selScripts)
+	res.nontrivial = len(in.Checklist) >= 2 && (kind == "PSweep" || kind == "PRedeem")
+	res.sig = map[string]interface{}{"fn": "pg", "out": kind}
+	res.tallies = []string{"pg-" + kind}
+	return res
+}
+
+func doWindow(nd *node, in input) winRes {
+	switch in.Fn {
+	case "deposits":
+		return doDeposits(nd, in.Dep)
+	case "redemptions":
+		return doRedemptions(nd, in.Red)
+	case "generate":
+		return doGenerate(nd, in.Gen)
+	case "pg":
+		return doPG(nd, in.PG)
+	}
+	panic("unknown window kind " + in.Fn)
+}
+
+// In a history all ages are relative to the instant the history started (the anchor) and are
+// kept >= histMargin seconds away from the boundaries of every window's parameters; a history
+// whose windows did not all start within histMaxDrift seconds of the anchor is run again (this
+// only repeats the run, it never decides anything).
+const histMargin, histMaxDrift = 30, 20
+
+func maxDrift(results []winRes) int64 {
+	var m int64
+	for _, r := range results {
+		if r.drift > m {
+			m = r.drift
+		}
+	}
+	return m
+}
+
+func emitHistory(h *histIn, results []winRes, em *lib.Emitter, id string) {
+	var terms, kinds []string
+	var outs []interface{}
+	differ, selected := false, false
+	last := map[string]string{} // the previous window of the same call
+	for i, r := range results {
+		terms = append(terms, r.coq)
+		kinds = append(kinds, r.fn+"-"+r.kind)
+		outs = append(outs, map[string]interface{}{"window": i, "fn": r.fn, "out": r.out})
+		for _, t := range r.tallies {
+			em.Tally("hist-" + t)
+		}
+		if prev, ok := last[r.fn]; ok && prev != r.summary {
+			differ = true
+		}
+		last[r.fn] = r.summary
+		selected = selected || len(r.selDeps) > 0 || len(r.selScripts) > 0 || r.kind == "GProp"
+	}
+	em.Tally(fmt.Sprintf("history-%s-windows-%d", h.Kind, len(results)))
+	key, _ := json.Marshal(h)
+	em.Case(lib.Case{ID: id, Coq: "(CHist " + lib.List(terms) + ")", Key: "hist" + string(key),
+		Nontrivial: len(results) >= 2 && differ && selected,
+		Sig:        map[string]interface{}{"fn": "history", "kind": h.Kind, "windows": kinds},
+		In:         input{Fn: "history", Hist: h}, Out: outs})
 }
 
 func run(in input, em *lib.Emitter, id string) {
+	if in.Fn == "history" {
+		var results []winRes
+		for try := 0; try < 5; try++ {
+			nd := newNode()
+			nd.anchor = time.Now().Unix()
+			results = nil
+			for _, w := range in.Hist.Windows {
+				results = append(results, doWindow(nd, w))
+			}
+			if maxDrift(results) <= histMaxDrift {
+				break
+			}
+		}
+		emitHistory(in.Hist, results, em, id)
+		return
+	}
+	r := doWindow(newNode(), in)
+	for _, t := range r.tallies {
+		em.Tally(t)
+	}
+	var key []byte
 	switch in.Fn {
 	case "deposits":
-		runDeposits(in.Dep, em, id)
+		key, _ = json.Marshal(in.Dep)
+		key = append([]byte(r.fn), key...)
 	case "redemptions":
-		runRedemptions(in.Red, em, id)
+		key, _ = json.Marshal(in.Red)
+		key = append([]byte("red"), key...)
 	case "generate":
-		runGenerate(in.Gen, em, id)
+		key, _ = json.Marshal(in.Gen)
+		key = append([]byte("gen"), key...)
+	default:
+		key, _ = json.Marshal(in.PG)
+		key = append([]byte("pg"), key...)
 	}
+	em.Case(lib.Case{ID: id, Coq: "(COne " + r.coq + ")", Key: string(key), Nontrivial: r.nontrivial, Sig: r.sig, In: in, Out: r.out})
 }
 
 // ---------------------------------------------------------------- generation
@@ -784,7 +1048,10 @@ func ageAround(r *lib.Rng, b int64) int64 {
 	return a
 }
 
-func genDeposits(r *lib.Rng, malformed bool) *depIn {
+func genDeposits(r *lib.Rng, malformed bool) *depIn { return genDepositsN(r, malformed, 10) }
+
+// genDepositsN: at most nmax events (a larger history once in a while when nmax >= 10)
+func genDepositsN(r *lib.Rng, malformed bool, nmax int) *depIn {
 	in := &depIn{MinAge: u32(uint32(r.Range(600, 7200))), Wallet: r.Range(1, 3), SkipSwept: true, SkipUnconf: true}
 	switch r.Intn(4) {
 	case 0:
@@ -818,8 +1085,8 @@ func genDeposits(r *lib.Rng, malformed bool) *depIn {
 			in.Max = -1
 		}
 	}
-	n := r.Range(0, 10)
-	if r.Chance(1, 8) {
+	n := r.Range(0, nmax)
+	if r.Chance(1, 8) && nmax >= 10 {
 		n = r.Range(10, 16)
 	}
 	base := uint64(r.Range(1000, 100000))
@@ -885,12 +1152,18 @@ func genDeposits(r *lib.Rng, malformed bool) *depIn {
 	return in
 }
 
-func genRedemptions(r *lib.Rng, malformed bool) *redIn {
+func genRedemptions(r *lib.Rng, malformed bool) *redIn { return genRedemptionsN(r, malformed, 8, 0) }
+
+// genRedemptionsN: at most kmax redemption keys; wallet 0 = a random wallet
+func genRedemptionsN(r *lib.Rng, malformed bool, kmax int, wallet int) *redIn {
 	minAge := uint32(r.Range(300, 3600))
 	timeout := uint32(r.Range(20000, 200000))
 	abt := []int{12, 12, 12, 1, 5, 13, 15}[r.Intn(7)]
 	cur := uint64(r.Range(100, 300000))
 	in := &redIn{Current: &cur, MinAge: &minAge, Timeout: &timeout, ABT: abt, Wallet: r.Range(1, 3)}
+	if wallet != 0 {
+		in.Wallet = wallet
+	}
 	switch r.Intn(4) {
 	case 0:
 		in.Limit = 0
@@ -907,7 +1180,7 @@ func genRedemptions(r *lib.Rng, malformed bool) *redIn {
 	if cur > lookback {
 		start = cur - lookback
 	}
-	nKeys := r.Range(0, 8)
+	nKeys := r.Range(0, kmax)
 	ageSet := r.Chance(1, 2) // draw ages from a small set: many ties
 	for k := 1; k <= nKeys; k++ {
 		w := in.Wallet
@@ -1009,6 +1282,528 @@ func genGenerate(r *lib.Rng) *genIn {
 	return in
 }
 
+// ---------------------------------------------------------------- window histories
+
+func cloneDep(in *depIn) *depIn {
+	b, _ := json.Marshal(in)
+	out := &depIn{}
+	_ = json.Unmarshal(b, out)
+	return out
+}
+func cloneRed(in *redIn) *redIn {
+	b, _ := json.Marshal(in)
+	out := &redIn{}
+	_ = json.Unmarshal(b, out)
+	return out
+}
+
+// away: is the age at least histMargin seconds away from the boundary b?
+func away(age, b int64) bool { return age <= b-histMargin || age >= b+histMargin }
+
+// normDep keeps the minimum-age boundary of the window >= histMargin seconds away from every
+// reveal age: the ages belong to the deposits and stay, the parameter moves
+func normDep(in *depIn) {
+	if in.MinAge == nil {
+		return
+	}
+	for k := 0; k < 50; k++ {
+		ok := true
+		for _, q := range in.Reqs {
+			ok = ok && away(q.Age, int64(*in.MinAge))
+		}
+		if ok {
+			return
+		}
+		*in.MinAge += histMargin
+	}
+}
+
+func redDelayOf(in *redIn, w, s int) int64 {
+	for _, d := range in.Delays {
+		if d.Wallet == w && d.Script == s {
+			if d.Err {
+				return 0
+			}
+			return d.Secs
+		}
+	}
+	return 0
+}
+
+// normRed keeps both boundaries of the window - max(minAge, delay) and the timeout - >=
+// histMargin seconds away from every request age: the ages belong to the requests and stay, the
+// parameters (minimum age, delays, timeout) move
+func normRed(in *redIn) {
+	for k := 0; k < 200; k++ {
+		ok := true
+		for _, p := range in.Pending {
+			if in.Timeout != nil && !away(p.Age, int64(*in.Timeout)) {
+				*in.Timeout += histMargin
+				ok = false
+			}
+			if in.MinAge == nil {
+				continue
+			}
+			d := redDelayOf(in, p.Wallet, p.Script)
+			if d > int64(*in.MinAge) {
+				if !away(p.Age, d) {
+					for i := range in.Delays {
+						if in.Delays[i].Wallet == p.Wallet && in.Delays[i].Script == p.Script {
+							in.Delays[i].Secs += histMargin
+							break
+						}
+					}
+					ok = false
+				}
+			} else if !away(p.Age, int64(*in.MinAge)) {
+				*in.MinAge += histMargin
+				ok = false
+			}
+		}
+		if ok {
+			return
+		}
+	}
+}
+
+// newParam: a parameter value that puts the boundary next to (>= histMargin away from) one of
+// the given ages, so that the request / deposit changes sides; lo <= result
+func newParam(r *lib.Rng, ages []int64, lo, hi int) uint32 {
+	if len(ages) == 0 || r.Chance(1, 3) {
+		return uint32(r.Range(lo, hi))
+	}
+	v := ages[r.Intn(len(ages))]
+	if r.Bool() {
+		v += int64(r.Range(histMargin, 600))
+	} else {
+		v -= int64(r.Range(histMargin, 600))
+	}
+	if v < int64(lo) {
+		v = int64(lo)
+	}
+	return uint32(v)
+}
+
+var windowGaps = []int64{30, 900, 3600, 21600}
+
+// evolveDep: the deposit side of the chain between two coordination windows.  [sel] are the
+// deposits the previous window selected: mostly they get swept.
+func evolveDep(r *lib.Rng, prev *depIn, sel [][2]int) *depIn {
+	in := cloneDep(prev)
+	in.EventsErr = false // failures are transient
+	if in.MinAge == nil {
+		in.MinAge = u32(uint32(r.Range(600, 7200)))
+	}
+	var ages []int64
+	for i := range in.Reqs {
+		q := &in.Reqs[i]
+		ages = append(ages, q.Age)
+		if q.State == "err" && r.Bool() {
+			q.State = "found"
+		}
+	}
+	sweep := func(tx, idx int) {
+		for i := range in.Reqs {
+			if in.Reqs[i].Tx == tx && int(in.Reqs[i].Idx) == idx && in.Reqs[i].Swept == 0 {
+				in.Reqs[i].Swept = int64(r.Range(1, 3000))
+			}
+		}
+	}
+	switch mode := r.Intn(8); {
+	case mode == 0: // nothing gets swept
+	case mode == 1 && len(sel) > 0: // the sweep covered a prefix only
+		for _, d := range sel[:r.Range(1, len(sel))] {
+			sweep(d[0], d[1])
+		}
+	case mode == 2 && len(in.Reqs) > 0: // somebody else's sweep
+		q := in.Reqs[r.Intn(len(in.Reqs))]
+		sweep(q.Tx, int(q.Idx))
+	default:
+		for _, d := range sel {
+			sweep(d[0], d[1])
+		}
+	}
+	if r.Chance(1, 12) { // reorganisation: a swept deposit is unswept again
+		for i := range in.Reqs {
+			if in.Reqs[i].Swept != 0 {
+				in.Reqs[i].Swept = 0
+				break
+			}
+		}
+	}
+	// new reveals
+	maxTx, maxBlock := 0, uint64(1000)
+	for _, e := range in.Events {
+		if e.Tx > maxTx {
+			maxTx = e.Tx
+		}
+		if e.Block > maxBlock {
+			maxBlock = e.Block
+		}
+	}
+	for k := r.Intn(3); k > 0; k-- {
+		maxTx++
+		e := dEv{Tx: maxTx, Idx: uint32(r.Intn(3)), Wallet: in.Wallet, Block: maxBlock + uint64(r.Intn(3))}
+		if r.Chance(1, 6) {
+			e.Wallet = r.Range(1, 3)
+		}
+		if r.Chance(1, 5) && len(in.Events) > 0 { // an event of an older block shows up late
+			e.Block = in.Events[r.Intn(len(in.Events))].Block
+		}
+		maxBlock = e.Block
+		req := dReq{Tx: e.Tx, Idx: e.Idx, State: "found", Age: ageAround(r, int64(*in.MinAge)), Amount: uint64(r.Range(10000, 200000000))}
+		if r.Bool() {
+			req.Age = int64(*in.MinAge) + int64(r.Range(5, 100000))
+		}
+		in.Events = append(in.Events, e)
+		in.Reqs = append(in.Reqs, req)
+		in.Confs = append(in.Confs, dConf{Tx: e.Tx, Conf: uint(r.Range(0, 8))})
+	}
+	// funding transactions gain confirmations
+	for i := range in.Confs {
+		c := &in.Confs[i]
+		if r.Bool() {
+			c.Conf += uint(r.Intn(4))
+		}
+		if c.Err {
+			c.Err = r.Bool()
+		} else if r.Chance(1, 20) {
+			c.Err = true
+		}
+	}
+	// parameters: a changed minimum age makes deposits mature / immature again
+	if r.Chance(1, 3) {
+		in.MinAge = u32(newParam(r, ages, 60, 7200))
+	}
+	if r.Chance(1, 4) {
+		in.Max = r.Range(1, 4)
+	}
+	// transient failures
+	if r.Chance(1, 15) && len(in.Reqs) > 0 {
+		in.Reqs[r.Intn(len(in.Reqs))].State = "err"
+	}
+	if r.Chance(1, 30) {
+		in.MinAge = nil
+	}
+	if r.Chance(1, 30) {
+		in.EventsErr = true
+	}
+	normDep(in)
+	return in
+}
+
+// evolveRed: the redemption side of the chain between two coordination windows.  [sel] are the
+// scripts the previous window selected: mostly these requests get processed.
+func evolveRed(r *lib.Rng, prev *redIn, sel []int) *redIn {
+	in := cloneRed(prev)
+	in.EventsErr = false
+	if r.Bool() {
+		in.KeyErrs = nil
+	}
+	if in.MinAge == nil {
+		in.MinAge = u32(uint32(r.Range(300, 3600)))
+	}
+	if in.Timeout == nil {
+		in.Timeout = u32(uint32(r.Range(20000, 200000)))
+	}
+	if in.Current == nil {
+		in.Current = u64(uint64(r.Range(100, 300000)))
+	}
+	*in.Current += uint64(windowGaps[r.Intn(len(windowGaps))])/uint64(in.ABT) + uint64(r.Intn(3))
+	var ages []int64
+	for i := range in.Pending {
+		ages = append(ages, in.Pending[i].Age)
+		if in.Pending[i].State == "err" && r.Bool() {
+			in.Pending[i].State = "found"
+		}
+	}
+	var delays []rDelay
+	for _, d := range in.Delays {
+		if d.Err && r.Bool() {
+			continue
+		}
+		delays = append(delays, d)
+	}
+	in.Delays = delays
+	remove := func(w, s int) {
+		var keep []rPend
+		for _, p := range in.Pending {
+			if !(p.Wallet == w && p.Script == s) {
+				keep = append(keep, p)
+			}
+		}
+		in.Pending = keep
+	}
+	switch mode := r.Intn(8); {
+	case mode <= 1: // nothing processed
+	case mode <= 3 && len(sel) > 0:
+		for _, s := range sel[:r.Range(1, len(sel))] {
+			remove(in.Wallet, s)
+		}
+	case mode == 4 && len(in.Pending) > 0:
+		p := in.Pending[r.Intn(len(in.Pending))]
+		remove(p.Wallet, p.Script)
+	default:
+		for _, s := range sel {
+			remove(in.Wallet, s)
+		}
+	}
+	// parameters: a changed minimum age / timeout makes requests mature, immature, timed out
+	if r.Chance(1, 4) {
+		in.MinAge = u32(newParam(r, ages, 60, 3600))
+	}
+	if r.Chance(1, 5) {
+		in.Timeout = u32(newParam(r, ages, 2000, 200000))
+	}
+	if r.Chance(1, 4) {
+		in.Limit = uint16(r.Range(0, 4))
+		if in.ViaRun && in.Limit == 0 {
+			in.Limit = 1
+		}
+	}
+	// new requests, re-requests of a key that was seen before
+	maxScript := 0
+	for _, e := range in.Events {
+		if e.Script > maxScript {
+			maxScript = e.Script
+		}
+	}
+	for k := r.Intn(3); k > 0; k-- {
+		w, s := in.Wallet, maxScript+1
+		if r.Chance(1, 4) && len(in.Events) > 0 {
+			e := in.Events[r.Intn(len(in.Events))]
+			w, s = e.Wallet, e.Script
+			remove(w, s)
+		} else {
+			maxScript++
+			if r.Chance(1, 6) {
+				w = r.Range(1, 3)
+			}
+		}
+		b := *in.Current
+		if back := uint64(r.Intn(20)); b > back {
+			b -= back
+		}
+		in.Events = append(in.Events, rEv{Block: b, Wallet: w, Script: s})
+		hi := int64(*in.MinAge)
+		if d := redDelayOf(in, w, s); d > hi {
+			hi = d
+		}
+		p := rPend{Wallet: w, Script: s, State: "found", Age: ageAround(r, hi)}
+		if r.Bool() {
+			p.Age = hi + int64(r.Range(histMargin, 20000))
+		}
+		in.Pending = append(in.Pending, p)
+	}
+	// the processing delay of a request is set / changed / dropped: a request that was selected
+	// and is still pending gets a delay that makes it too young; a request held back by its
+	// delay is released; anything else
+	for k := r.Intn(3); k > 0 && len(in.Pending) > 0; k-- {
+		p := in.Pending[r.Intn(len(in.Pending))]
+		for _, q := range in.Pending {
+			d := redDelayOf(in, q.Wallet, q.Script)
+			wasSel := false
+			for _, s := range sel {
+				wasSel = wasSel || (q.Wallet == in.Wallet && q.Script == s)
+			}
+			if (wasSel || d > q.Age) && r.Chance(1, 2) {
+				p = q
+				break
+			}
+		}
+		var secs int64
+		switch d := redDelayOf(in, p.Wallet, p.Script); {
+		case d > p.Age && r.Chance(3, 4): // released
+			secs = p.Age - int64(r.Range(histMargin, 600))
+		case d <= p.Age && r.Chance(3, 4): // now too young
+			secs = p.Age + int64(r.Range(histMargin, 600))
+		default:
+			secs = int64(r.Range(0, int(*in.MinAge)))
+		}
+		if secs < 0 {
+			secs = 0
+		}
+		done := false
+		for i := range in.Delays {
+			if in.Delays[i].Wallet == p.Wallet && in.Delays[i].Script == p.Script {
+				in.Delays[i] = rDelay{Wallet: p.Wallet, Script: p.Script, Secs: secs}
+				done = true
+				break
+			}
+		}
+		if !done {
+			in.Delays = append(in.Delays, rDelay{Wallet: p.Wallet, Script: p.Script, Secs: secs})
+		}
+	}
+	if r.Chance(1, 10) && len(in.Delays) > 0 {
+		k := r.Intn(len(in.Delays))
+		in.Delays = append(in.Delays[:k], in.Delays[k+1:]...)
+	}
+	// transient failures
+	if r.Chance(1, 12) {
+		switch r.Intn(5) {
+		case 0:
+			if len(in.Pending) > 0 {
+				in.Pending[r.Intn(len(in.Pending))].State = "err"
+			}
+		case 1:
+			if len(in.Pending) > 0 {
+				p := in.Pending[r.Intn(len(in.Pending))]
+				in.Delays = append([]rDelay{{Wallet: p.Wallet, Script: p.Script, Err: true}}, in.Delays...)
+			}
+		case 2:
+			if len(in.Events) > 0 {
+				e := in.Events[r.Intn(len(in.Events))]
+				in.KeyErrs = append(in.KeyErrs, [2]int{e.Wallet, e.Script})
+			}
+		case 3:
+			in.EventsErr = true
+		default:
+			in.Timeout = nil
+		}
+	}
+	normRed(in)
+	return in
+}
+
+func genChecklist(r *lib.Rng) []uint8 {
+	base := [][]uint8{{3, 2, 1}, {2, 3, 1}, {3, 2}, {2, 3}, {2}, {3}, {1, 2, 3}, {3, 1, 2}, {2, 3}, {3, 2}}[r.Intn(10)]
+	cl := append([]uint8{}, base...)
+	if r.Chance(1, 4) {
+		k := r.Intn(len(cl) + 1)
+		cl = append(cl[:k], append([]uint8{[]uint8{0, 9}[r.Intn(2)]}, cl[k:]...)...)
+	}
+	if r.Chance(1, 8) {
+		cl = append(cl, cl[r.Intn(len(cl))])
+	}
+	return cl
+}
+
+// genHistory generates AND runs a window history of the given kind on one node: the state of a
+// window is derived from the previous window's state and from what the implementation selected
+// there (the selected deposits get swept, the selected requests processed, ...).  The recorded
+// input holds every window's complete state, so a replay needs no generator.
+//
+//	sweep   - the DepositSweepTask (FindDepositsToSweep / Run), now and then FindDeposits
+//	redeem  - the RedemptionTask (FindPendingRedemptions / Run)
+//	fakegen - a generator over fake tasks whose answers change between the windows
+//	prod    - the production generator
+//	mixed   - all of them, interleaved, on the same chains
+func genHistory(r0 *lib.Rng, kind string, em *lib.Emitter, id string) {
+	for try := 0; try < 4; try++ {
+		r := *r0 // the same history again
+		h, results := genHistoryOnce(&r, kind)
+		if maxDrift(results) <= histMaxDrift {
+			emitHistory(h, results, em, id)
+			return
+		}
+	}
+	em.Tally("history-dropped-too-slow")
+}
+
+func genHistoryOnce(r *lib.Rng, kind string) (*histIn, []winRes) {
+	nd := newNode()
+	nd.anchor = time.Now().Unix()
+	h := &histIn{Kind: kind}
+	var results []winRes
+	nWin := r.Range(2, 5)
+	nmax, kmax := 8, 6
+	if kind == "prod" || kind == "mixed" {
+		nWin, nmax, kmax = r.Range(2, 4), 5, 4
+	}
+	dep := genDepositsN(r.Fork("dep0"), false, nmax)
+	for k := 1; len(dep.Events) < 3; k++ { // something to select from
+		dep = genDepositsN(r.Fork(fmt.Sprintf("dep0-%d", k)), false, nmax)
+	}
+	for i := range dep.Confs {
+		if r.Bool() { // mostly confirmed
+			dep.Confs[i].Conf = uint(r.Range(6, 9))
+			dep.Confs[i].Err = false
+		}
+	}
+	if dep.Wallet == 0 {
+		dep.Wallet = r.Range(1, 3)
+	}
+	if dep.Max < 0 {
+		dep.Max = 0
+	}
+	if r.Chance(2, 3) {
+		dep.Max = r.Range(1, 3) // few slots: what fills them matters
+	}
+	normDep(dep)
+	red := genRedemptionsN(r.Fork("red0"), false, kmax, dep.Wallet)
+	normRed(red)
+	gen := genGenerate(r.Fork("gen0"))
+	for k := 1; len(gen.Tasks) < 2 || len(gen.Checklist) < 2; k++ {
+		gen = genGenerate(r.Fork(fmt.Sprintf("gen0-%d", k)))
+	}
+	var selDeps [][2]int
+	var selScripts []int
+	for w := 0; w < nWin; w++ {
+		rw := r.Fork(fmt.Sprintf("w%d", w))
+		if w > 0 {
+			dep = evolveDep(rw.Fork("dep"), dep, selDeps)
+			red = evolveRed(rw.Fork("red"), red, selScripts)
+			g := &genIn{Tasks: append([]gTask{}, gen.Tasks...), Checklist: gen.Checklist}
+			outs := []string{"prop", "none", "none", "err"}
+			for i := range g.Tasks {
+				if rw.Bool() {
+					g.Tasks[i].Out = outs[rw.Intn(len(outs))]
+				}
+			}
+			if rw.Chance(2, 3) {
+				g.Checklist = genGenerate(rw.Fork("cl")).Checklist
+			}
+			gen = g
+		}
+		call := kind
+		if kind == "mixed" {
+			call = []string{"sweep", "redeem", "prod", "prod", "fakegen"}[rw.Intn(5)]
+		}
+		var in input
+		switch call {
+		case "sweep":
+			d := cloneDep(dep)
+			d.ToSweep, d.ViaRun, d.SkipSwept, d.SkipUnconf = true, rw.Bool(), true, true
+			if rw.Chance(1, 6) {
+				d.ToSweep, d.ViaRun, d.SkipSwept, d.SkipUnconf = false, false, rw.Bool(), rw.Bool()
+			}
+			if d.ViaRun && d.Max <= 0 {
+				d.Max = rw.Range(1, 4)
+			}
+			in = input{Fn: "deposits", Dep: d}
+		case "redeem":
+			d := cloneRed(red)
+			d.ViaRun = rw.Chance(2, 5)
+			in = input{Fn: "redemptions", Red: d}
+		case "fakegen":
+			in = input{Fn: "generate", Gen: gen}
+		default:
+			d := cloneDep(dep)
+			d.ToSweep, d.ViaRun, d.SkipSwept, d.SkipUnconf = true, false, true, true
+			if d.Max <= 0 {
+				d.Max = rw.Range(1, 4)
+			}
+			q := cloneRed(red)
+			q.ViaRun = false
+			if q.Limit == 0 {
+				q.Limit = uint16(rw.Range(1, 4))
+			}
+			in = input{Fn: "pg", PG: &pgIn{Dep: d, Red: q, HbInvalid: rw.Chance(1, 10), Checklist: genChecklist(rw.Fork("cl"))}}
+		}
+		res := doWindow(nd, in)
+		h.Windows = append(h.Windows, in)
+		results = append(results, res)
+		if in.Fn == "deposits" || res.kind == "PSweep" {
+			selDeps = res.selDeps
+		}
+		if in.Fn == "redemptions" || res.kind == "PRedeem" {
+			selScripts = res.selScripts
+		}
+	}
+	return h, results
+}
+
 func main() {
 	log.SetAllLoggers(log.LevelFatal)
 	o := lib.ParseOpts()
@@ -1075,10 +1870,23 @@ func main() {
 	for i, n := 0, o.Count(300, 6000); i < n; i++ {
 		run(input{Fn: "redemptions", Red: genRedemptions(rng.Fork(fmt.Sprintf("r%d", i)), i%8 == 7)}, em, fmt.Sprintf("red-%d", i))
 	}
+	// --- window histories on ONE long-lived object graph over an evolving chain state
+	for _, k := range []struct {
+		kind     string
+		quick, t int
+	}{{"sweep", 50, 1500}, {"redeem", 40, 1500}, {"fakegen", 30, 1000}, {"prod", 40, 1500}, {"mixed", 30, 1500}} {
+		for i, n := 0, o.Count(k.quick, k.t); i < n; i++ {
+			genHistory(rng.Fork(fmt.Sprintf("h-%s-%d", k.kind, i)), k.kind, em, fmt.Sprintf("hist-%s-%d", k.kind, i))
+		}
+	}
 	em.Close("a case is one call of FindDeposits / FindDepositsToSweep / FindPendingRedemptions on a generated event "+
 		"history, or one Generate call on a generated task list and checklist; distinct by the generated input; "+
 		"non-trivial: deposits - >= 3 events with block ties or out-of-order blocks and a non-empty proper selection; "+
-		"redemptions - some key has several events and >= 2 requests are selected; generate - >= 2 tasks ran", nil)
+		"redemptions - some key has several events and >= 2 requests are selected; generate - >= 2 tasks ran; "+
+		"pg (one Generate call of the production generator) - >= 2 checklist actions and a sweep / redemption proposal; "+
+		"or a window history: 2-5 such calls, one after the other, on ONE long-lived DepositSweepTask / RedemptionTask / "+
+		"ProposalGenerator while the fake chains' state evolves between the calls - "+
+		"non-trivial when two windows of the same call differ in their output and something is selected", nil)
 }
 
 func corpus() []input {
@@ -1115,5 +1923,56 @@ func corpus() []input {
 		g([]gTask{{3, "none"}, {2, "err"}}, []uint8{1, 3, 2, 3}),
 		g([]gTask{{3, "none"}}, []uint8{3, 3}),
 		g(nil, nil),
+		// --- window histories on one long-lived object graph
+		// the two oldest deposits are selected, then swept: the next two must follow (seeded C33b)
+		hist("sweep",
+			hd(hevs, hreqs(0, 0, 0, 0), 2, false),
+			hd(hevs, hreqs(500, 500, 0, 0), 2, false),
+			hd(hevs, hreqs(1400, 1400, 0, 0), 2, true),
+			hd(hevs, hreqs(2300, 2300, 0, 600), 2, true)),
+		// a request's processing delay is raised, then lowered; a request is processed; the minimum age is raised
+		hist("redeem",
+			hr(2, []rPend{{1, 1, "found", 5000}, {1, 2, "found", 4000}, {1, 3, "found", 3000}}, nil, 600),
+			hr(2, []rPend{{1, 1, "found", 5000}, {1, 2, "found", 4000}, {1, 3, "found", 3000}}, []rDelay{{1, 1, false, 20000}}, 600),
+			hr(2, []rPend{{1, 1, "found", 5000}, {1, 3, "found", 3000}}, []rDelay{{1, 1, false, 4000}}, 600),
+			hr(1, []rPend{{1, 1, "found", 5000}, {1, 3, "found", 3000}}, []rDelay{{1, 1, false, 4000}}, 3500)),
+		// the deciding task changes from window to window
+		hist("fakegen",
+			g([]gTask{{2, "prop"}, {3, "none"}}, []uint8{3, 2}),
+			g([]gTask{{2, "none"}, {3, "prop"}}, []uint8{3, 2}),
+			g([]gTask{{2, "prop"}, {3, "prop"}}, []uint8{2, 3}),
+			g([]gTask{{2, "none"}, {3, "none"}}, []uint8{3, 2})),
+		// production generator: redemption first, then (requests processed) the sweep, then
+		// (deposits swept) the heartbeat
+		hist("prod",
+			pg([]uint8{3, 2, 1}, hd(hevs, hreqs(0, 0, 0, 0), 2, false).Dep,
+				hr(2, []rPend{{1, 1, "found", 5000}, {1, 2, "found", 4000}}, nil, 600).Red),
+			pg([]uint8{3, 2, 1}, hd(hevs, hreqs(0, 0, 0, 0), 2, false).Dep, hr(2, nil, nil, 600).Red),
+			pg([]uint8{3, 2, 1}, hd(hevs, hreqs(500, 500, 0, 0), 3, false).Dep, hr(2, nil, nil, 600).Red),
+			pg([]uint8{3, 9, 2, 1}, hd(hevs, hreqs(900, 900, 300, 300), 3, false).Dep, hr(2, nil, nil, 600).Red)),
 	}
+}
+
+// ---- corpus helpers for histories
+var hevs = []dEv{{1, 0, 100, 1}, {2, 1, 200, 1}, {3, 0, 300, 1}, {4, 2, 400, 1}}
+
+// hreqs: the four deposits of hevs, revealed long ago, with the given swept markers
+func hreqs(s1, s2, s3, s4 int64) []dReq {
+	return []dReq{{1, 0, "found", 90000, s1, 1e6}, {2, 1, "found", 90000, s2, 2e6}, {3, 0, "found", 90000, s3, 3e6}, {4, 2, "found", 90000, s4, 4e6}}
+}
+func hd(evs []dEv, reqs []dReq, max int, viaRun bool) input {
+	return input{Fn: "deposits", Dep: &depIn{MinAge: u32(3600), Events: evs, Reqs: reqs,
+		Confs:  []dConf{{1, 6, false}, {2, 7, false}, {3, 6, false}, {4, 8, false}},
+		Wallet: 1, Max: max, SkipSwept: true, SkipUnconf: true, ToSweep: true, ViaRun: viaRun}}
+}
+func hr(limit uint16, pend []rPend, delays []rDelay, minAge uint32) input {
+	return input{Fn: "redemptions", Red: &redIn{Current: u64(50000), MinAge: u32(minAge), Timeout: u32(100000), ABT: 12,
+		Events:  []rEv{{49000, 1, 1}, {49100, 1, 2}, {49200, 1, 3}},
+		Pending: pend, Delays: delays, Wallet: 1, Limit: limit}}
+}
+func pg(cl []uint8, dep *depIn, red *redIn) input {
+	return input{Fn: "pg", PG: &pgIn{Dep: dep, Red: red, Checklist: cl}}
+}
+func hist(kind string, windows ...input) input {
+	return input{Fn: "history", Hist: &histIn{Kind: kind, Windows: windows}}
 }
